@@ -501,8 +501,10 @@ REQ_FILE_KW = {"src_folder_name": "str(self.uuid)", "src_file_name": "'database.
 class TrXfer:
     """Translator for backup_database / restore_backup; state = s (and b for the backup)."""
 
-    def __init__(self, with_backup: bool):
+    def __init__(self, with_backup: bool, cls: "ast.ClassDef | None" = None):
         self.wb = with_backup
+        self.cls = cls            # the class whose methods may be inlined (helpers the two methods share)
+        self.depth = 0
 
     def ret(self, v: str) -> str:
         return f"(s, b, {v})" if self.wb else f"(s, {v})"
@@ -515,8 +517,21 @@ class TrXfer:
             return "s.canAct"
         if t == "self.backup_server_ip is None":
             return "(!s.backupConfigured)"
-        if t == "ftp_client_service" and env.get(t) == "ftpc":
+        if isinstance(e, ast.Name) and env.get(t) == "ftpc":
             return "s.ftpc.isSome"
+        if isinstance(e, ast.Name) and env.get(t) == "nohandle":
+            return "false"
+        if isinstance(e, ast.Compare) and len(e.ops) == 1 and isinstance(e.left, ast.Name) and u(e.comparators[0]) == "None" \
+                and env.get(e.left.id) in ("ftpc", "nohandle"):
+            isnone = "s.ftpc.isNone" if env[e.left.id] == "ftpc" else "true"
+            if isinstance(e.ops[0], ast.Is):
+                return isnone
+            if isinstance(e.ops[0], ast.IsNot):
+                return f"(!{isnone})"
+        # the FTP client's own `_can_perform_action` (its node is the database host)
+        if isinstance(e, ast.Call) and isinstance(e.func, ast.Attribute) and e.func.attr == "_can_perform_action" and not e.args \
+                and isinstance(e.func.value, ast.Name) and env.get(e.func.value.id) == "ftpc":
+            return "s.ftpcAct"
         if t == "self.db_file":
             return "s.file.isSome"
         if t == "self.db_file is None":
@@ -533,7 +548,8 @@ class TrXfer:
             return "s.file.isNone"
         raise Unsupported(f"transfer: condition {t}")
 
-    def go(self, body, env: dict, ind: int) -> str:
+    def go(self, body, env: dict, ind: int, ret_k=None) -> str:
+        """`ret_k(value_ast, env, ind)`: what a `return` means here (inside an inlined helper: continue in the caller)"""
         pad = "  " * ind
         body = list(body)
         while body and (skippable(body[0]) or self.skip(body[0])):
@@ -542,16 +558,23 @@ class TrXfer:
             raise Unsupported("transfer: control falls off the end")
         st, rest = body[0], body[1:]
         if isinstance(st, ast.Return):
+            if ret_k is not None:
+                return ret_k(st.value, env, ind)
             if not (isinstance(st.value, ast.Constant) and isinstance(st.value.value, bool)):
                 raise Unsupported(f"transfer: {u(st)}")
             return pad + self.ret("true" if st.value.value else "false")
         if isinstance(st, ast.If):
             # both branches are straight-line state updates (possibly empty): one `let s := if ...`, the rest is shared
+            c0 = self.cond(st.test, env)
+            if c0 in ("true", "(!false)"):     # decided by what an inlined helper returned on this path: the other branch is dead
+                return self.go(list(st.body) + rest, env, ind, ret_k)
+            if c0 in ("false", "(!true)"):
+                return self.go(list(st.orelse) + rest, env, ind, ret_k)
             a, b2 = self.updates(st.body), self.updates(st.orelse)
             if a is not None and b2 is not None:
-                return (f"{pad}let s := if {self.cond(st.test, env)} then {a} else {b2}\n" + self.go(rest, env, ind))
-            return (f"{pad}if {self.cond(st.test, env)} then\n{self.go(list(st.body) + rest, env, ind + 1)}\n{pad}else\n"
-                    f"{self.go(list(st.orelse) + rest, env, ind + 1)}")
+                return (f"{pad}let s := if {self.cond(st.test, env)} then {a} else {b2}\n" + self.go(rest, env, ind, ret_k))
+            return (f"{pad}if {self.cond(st.test, env)} then\n{self.go(list(st.body) + rest, env, ind + 1, ret_k)}\n{pad}else\n"
+                    f"{self.go(list(st.orelse) + rest, env, ind + 1, ret_k)}")
         tgt = val = None
         if isinstance(st, ast.AnnAssign) and st.value is not None:
             tgt, val = u(st.target), st.value
@@ -560,39 +583,62 @@ class TrXfer:
         if tgt is not None:
             v = u(val)
             if tgt == "software_manager" and v == "self.software_manager":
-                return self.go(rest, env, ind)
+                return self.go(rest, env, ind, ret_k)
             if tgt == "ftp_client_service" and v == "software_manager.software.get('ftp-client')":
-                return self.go(rest, dict(env, ftp_client_service="ftpc"), ind)
+                return self.go(rest, dict(env, ftp_client_service="ftpc"), ind, ret_k)
             if tgt == "db_file" and v == GET_DB_ANY:
-                return self.go(rest, dict(env, db_file="anyfile"), ind)
+                return self.go(rest, dict(env, db_file="anyfile"), ind, ret_k)
             if tgt == "response" and isinstance(val, ast.Call) and env.get("ftp_client_service") == "ftpc" and not val.args:
                 kw = {k.arg: u(k.value) for k in val.keywords}
                 f = u(val.func)
                 if f == "ftp_client_service.send_file" and kw == SEND_FILE_KW and self.wb:
                     return (f"{pad}let r := ftpSendFile s b pathReq big\n{pad}let s := r.1\n{pad}let b := r.2.1\n{pad}let response := r.2.2\n"
-                            + self.go(rest, dict(env, response="bool"), ind))
+                            + self.go(rest, dict(env, response="bool"), ind, ret_k))
                 if f == "ftp_client_service.request_file" and kw == REQ_FILE_KW and not self.wb:
                     return (f"{pad}let r := ftpRequestFile s b pathReq pathResp sendOk\n{pad}let s := r.1\n{pad}let response := r.2\n"
-                            + self.go(rest, dict(env, response="bool"), ind))
+                            + self.go(rest, dict(env, response="bool"), ind, ret_k))
+            # a helper of the same class (`x = self._helper(...)`): inlined; each `return v` of the helper continues in the
+            # caller with `x` bound to what it returned (None, or the FTP client it looked up)
+            if isinstance(val, ast.Call) and isinstance(val.func, ast.Attribute) and u(val.func.value) == "self" and not val.args \
+                    and self.cls is not None and self.depth < 2:
+                helper = next((m for m in self.cls.body if isinstance(m, ast.FunctionDef) and m.name == val.func.attr), None)
+                if helper is not None and isinstance(st.targets[0] if isinstance(st, ast.Assign) else st.target, ast.Name):
+                    params = [a.arg for a in helper.args.args][1:]
+                    if set(k.arg for k in val.keywords) != set(params) or any(not isinstance(k.value, ast.Constant) for k in val.keywords):
+                        raise Unsupported(f"transfer: helper call {u(val)}")
+
+                    def back(value_ast, henv, hind, tgt=tgt, rest=rest, env=env):
+                        if value_ast is None or (isinstance(value_ast, ast.Constant) and value_ast.value is None):
+                            kind = "nohandle"
+                        elif isinstance(value_ast, ast.Name) and henv.get(value_ast.id) == "ftpc":
+                            kind = "ftpc"
+                        else:
+                            raise Unsupported(f"transfer: helper returns {u(value_ast)}")
+                        return self.go(rest, dict(env, **{tgt: kind}), hind, ret_k)
+                    self.depth += 1
+                    try:
+                        return self.go(helper.body, {}, ind, back)
+                    finally:
+                        self.depth -= 1
             raise Unsupported(f"transfer: assignment {u(st)[:120]}")
         if isinstance(st, ast.Expr) and isinstance(st.value, ast.Call):
             t = u(st.value)
-            if t == DEL_DL:
-                return f"{pad}let s := {{ s with downloads := none }}\n" + self.go(rest, env, ind)
-            if t == DEL_DB:
-                return f"{pad}let s := {{ s with file := none }}\n" + self.go(rest, env, ind)
+            if t in self.UPDATES:
+                return f"{pad}let s := {self.UPDATES[t]}\n" + self.go(rest, env, ind, ret_k)
             if t == COPY:
                 return (f"{pad}let s := match s.downloads with | some d => {{ s with file := some d, folder := true }} | none => s\n"
-                        + self.go(rest, env, ind))
+                        + self.go(rest, env, ind, ret_k))
             if t == "self.set_health_state(SoftwareHealthState.GOOD)":
-                return f"{pad}let s := {{ s with health := Health.good }}\n" + self.go(rest, env, ind)
+                return f"{pad}let s := {{ s with health := Health.good }}\n" + self.go(rest, env, ind, ret_k)
         raise Unsupported(f"transfer: statement {u(st)[:100]}")
 
     @staticmethod
     def skip(st: ast.stmt) -> bool:
         return isinstance(st, ast.Assign) and len(st.targets) == 1 and u(st.targets[0]) in XFER_SKIP_ASSIGN
 
-    UPDATES = {DEL_DL: "{ s with downloads := none }", DEL_DB: "{ s with file := none }"}
+    # `delete_file` moves the live file to the folder's deleted files (what a `restore file` request brings back)
+    UPDATES = {DEL_DL: "{ s with downloads := none, dlDeleted := s.dlDeleted ++ s.downloads.toList }",
+               DEL_DB: "{ s with file := none, fileDeleted := s.fileDeleted ++ s.file.toList }"}
 
     def updates(self, stmts) -> "str | None":
         """a block made only of bookkeeping and plain state updates -> the lean term of the new `s`; otherwise None"""
@@ -614,7 +660,28 @@ def _dict_field(d: ast.Dict, key: str):
     return None
 
 
-def emit() -> str:
+FAILED: Dict[str, str] = {}     # function name -> why its translation failed (filled by the last `emit()`)
+
+# (lean name, doc, signature, stub that makes the equality theorem about it fail)
+FUNCS = [
+    ("addConnection", "`IOSoftware.add_connection`, translated statement by statement (software.py)",
+     "(s : Server) (connection_id owner : Nat) : Server × Bool", "({ s with conns := [] }, true)"),
+    ("processConnect", "`DatabaseService._process_connect`, translated: new server, status_code, `response`, `connection_id`",
+     "(s : Server) (owner : Nat) (password : Option Nat) : Server × Nat × Bool × Option Nat", "(s, 0, false, none)"),
+    ("processSql", "`DatabaseService._process_sql`, translated: new server, status_code, whether the answer carries the query's uuid",
+     "(s : Server) (query : Sql) : Server × Nat × Bool", "(s, 0, false)"),
+    ("terminateConnection", "`IOSoftware.terminate_connection(connection_id, send_disconnect=False)`, translated (the `if send_disconnect:` branch is dead)",
+     "(s : Server) (connection_id : Option Nat) : Server × Bool", "({ s with conns := [] }, false)"),
+    ("receive", "`DatabaseService.receive`, translated statement by statement: the dispatcher on the payload's keys",
+     "(s : Server) (src : Nat) (payload : Raw) : Server × RecvOut", "(s, RecvOut.raised)"),
+    ("backupDatabase", "`DatabaseService.backup_database`, translated (helpers of the class inlined; the transfer itself is `ftpSendFile`)",
+     "(s : Server) (b : Backup) (pathReq big : Bool) : Server × Backup × Bool", "(s, b, true)"),
+    ("restoreBackup", "`DatabaseService.restore_backup`, translated (helpers of the class inlined; the transfer itself is `ftpRequestFile`)",
+     "(s : Server) (b : Backup) (pathReq pathResp sendOk : Bool) : Server × Bool", "(s, true)"),
+]
+
+
+def _bodies() -> Dict[str, "callable"]:
     db = class_def(parse(DB), "DatabaseService")
     sw_tree = parse(SW)
     io = class_def(sw_tree, "IOSoftware")
@@ -624,16 +691,12 @@ def emit() -> str:
     if [u(x) for x in body] != ["self.health_state_actual = health_state", "return True"]:
         raise Unsupported("Software.set_health_state is not a plain setter")
 
-    # ---- add_connection(connection_id, session_id) : returns bool
     def ret_bool(st, env):
         v, ty = value(st.value, env)
         if ty != "bool":
             raise Unsupported(u(st))
         return f"(s, {v})"
-    add = find_method(io, "add_connection")
-    add_txt = Tr(ret_bool, {}).go(add.body, {"connection_id": ("connection_id", "nat")}, 1)
 
-    # ---- _process_connect: returns the response dict -> (status_code, response, connection_id)
     def ret_connect(st, env):
         if not isinstance(st.value, ast.Dict):
             raise Unsupported(u(st))
@@ -641,10 +704,7 @@ def emit() -> str:
         if sc is None or resp is None or cid is None or u(sc) != "status_code" or u(cid) != "connection_id":
             raise Unsupported(f"_process_connect response {u(st.value)}")
         return f"(s, status_code, {cond(resp, env)}, connection_id)"
-    pc = find_method(db, "_process_connect")
-    pc_txt = Tr(ret_connect, {"status_code": "nat", "connection_id": "optid"}).go(pc.body, {"password": ("password", "optpw")}, 1)
 
-    # ---- _process_sql: returns a dict -> (status_code, carries the query's uuid)
     def ret_sql(st, env):
         if not isinstance(st.value, ast.Dict):
             raise Unsupported(u(st))
@@ -655,51 +715,41 @@ def emit() -> str:
         if uu is not None and u(uu) != "query_id":
             raise Unsupported(f"_process_sql uuid field {u(uu)}")
         return f"(s, {sc.value}, {'true' if uu is not None else 'false'})"
-    ps = find_method(db, "_process_sql")
-    ps_txt = Tr(ret_sql, {}).go(ps.body, {"query": ("query", "Sql")}, 1)
 
-    term_txt = _translate_terminate(io)
-    rv = find_method(db, "receive")
-    if [a.arg for a in rv.args.args] != ["self", "payload", "session_id"] or rv.args.kwarg is None:
-        raise Unsupported("receive signature")
-    stmts = [x for x in rv.body if not skippable(x)]
-    if not (isinstance(stmts[0], ast.Assign) and u(stmts[0].targets[0]) == "result"):
-        raise Unsupported("receive: does not start with the default result")
-    recv_txt = TrRecv().go(rv.body, {}, 1)
+    def recv():
+        rv = find_method(db, "receive")
+        if [a.arg for a in rv.args.args] != ["self", "payload", "session_id"] or rv.args.kwarg is None:
+            raise Unsupported("receive signature")
+        stmts = [x for x in rv.body if not skippable(x)]
+        if not (isinstance(stmts[0], ast.Assign) and u(stmts[0].targets[0]) == "result"):
+            raise Unsupported("receive: does not start with the default result")
+        return "  let sent : Option (Nat × Option Nat) := none\n" + TrRecv().go(rv.body, {}, 1)
 
-    bk_txt = TrXfer(True).go(find_method(db, "backup_database").body, {}, 1)
-    rs_txt = TrXfer(False).go(find_method(db, "restore_backup").body, {}, 1)
+    return {
+        "addConnection": lambda: Tr(ret_bool, {}).go(find_method(io, "add_connection").body, {"connection_id": ("connection_id", "nat")}, 1),
+        "processConnect": lambda: Tr(ret_connect, {"status_code": "nat", "connection_id": "optid"}).go(
+            find_method(db, "_process_connect").body, {"password": ("password", "optpw")}, 1),
+        "processSql": lambda: Tr(ret_sql, {}).go(find_method(db, "_process_sql").body, {"query": ("query", "Sql")}, 1),
+        "terminateConnection": lambda: _translate_terminate(io),
+        "receive": recv,
+        "backupDatabase": lambda: TrXfer(True, db).go(find_method(db, "backup_database").body, {}, 1),
+        "restoreBackup": lambda: TrXfer(False, db).go(find_method(db, "restore_backup").body, {}, 1),
+    }
 
-    return "\n".join([
-        "import PrimaiteModel.Model.Database",
-        "namespace Primaite.Gen.DatabaseTr",
-        "open Primaite.Database",
-        "/-- `IOSoftware.add_connection`, translated statement by statement (software.py) -/",
-        "def addConnection (s : Server) (connection_id owner : Nat) : Server × Bool :=",
-        add_txt,
-        "",
-        "/-- `DatabaseService._process_connect`, translated: new server, status_code, `response`, `connection_id` -/",
-        "def processConnect (s : Server) (owner : Nat) (password : Option Nat) : Server × Nat × Bool × Option Nat :=",
-        pc_txt,
-        "",
-        "/-- `DatabaseService._process_sql`, translated: new server, status_code, whether the answer carries the query's uuid -/",
-        "def processSql (s : Server) (query : Sql) : Server × Nat × Bool :=",
-        ps_txt,
-        "",
-        "/-- `IOSoftware.terminate_connection(connection_id, send_disconnect=False)`, translated (the `if send_disconnect:` branch is dead) -/",
-        "def terminateConnection (s : Server) (connection_id : Option Nat) : Server × Bool :=",
-        term_txt,
-        "",
-        "/-- `DatabaseService.receive`, translated statement by statement: the dispatcher on the payload's keys -/",
-        "def receive (s : Server) (src : Nat) (payload : Raw) : Server × RecvOut :=",
-        "  let sent : Option (Nat × Option Nat) := none",
-        recv_txt,
-        "",
-        "/-- `DatabaseService.backup_database`, translated (the transfer itself is `ftpSendFile`) -/",
-        "def backupDatabase (s : Server) (b : Backup) (pathReq big : Bool) : Server × Backup × Bool :=",
-        bk_txt,
-        "",
-        "/-- `DatabaseService.restore_backup`, translated (the transfer itself is `ftpRequestFile`) -/",
-        "def restoreBackup (s : Server) (b : Backup) (pathReq pathResp sendOk : Bool) : Server × Bool :=",
-        rs_txt,
-        "end Primaite.Gen.DatabaseTr", ""])
+
+def emit() -> str:
+    """Never raises for a single untranslatable method: that method gets a stub (which makes the theorem about it fail) and is
+    listed in FAILED, so that the other translations - and the theorems about them - are still checked."""
+    FAILED.clear()
+    bodies = _bodies()
+    out = ["import PrimaiteModel.Model.Database", "namespace Primaite.Gen.DatabaseTr", "open Primaite.Database"]
+    for name, doc, sig, stub in FUNCS:
+        try:
+            txt = bodies[name]()
+        except Exception as e:  # noqa: BLE001 - Unsupported, or a shape the walker did not expect
+            FAILED[name] = f"{type(e).__name__}: {e}"
+            txt = f"  -- NOT TRANSLATED: {type(e).__name__}: {str(e)[:160]}\n  {stub}".replace("\n  --", "\n  --")
+            txt = "  " + stub + f"   -- NOT TRANSLATED ({type(e).__name__})"
+        out += [f"/-- {doc} -/", f"def {name} {sig} :=", txt, ""]
+    out += ["end Primaite.Gen.DatabaseTr", ""]
+    return "\n".join(out)
